@@ -47,6 +47,8 @@ impl Write for BufWriter<File> {
                 r is Err ==> final(self).logical().is_prefix_of(old(self).logical() + buf@),
     { unimplemented!() }
     #[verifier::external_body]
+    fn write(&mut self, buf: &[u8]) -> (r: Result<usize, IoError>) ensures file_write_frame(*old(self), *final(self)) { unimplemented!() }
+    #[verifier::external_body]
     fn write_u8(&mut self, x: u8) -> (r: Result<(), IoError>) ensures file_write_frame(*old(self), *final(self)) { unimplemented!() }
     #[verifier::external_body]
     fn write_u16<B: ByteOrder>(&mut self, x: u16) -> (r: Result<(), IoError>) ensures file_write_frame(*old(self), *final(self)) { unimplemented!() }
